@@ -539,6 +539,8 @@ class OpsMixin(object):
         self.err(node, "subscript of %r" % (base,))
 
     def slice(self, base, lo, hi, node=None, step=None):
+        if isinstance(base, PyObjV) and hasattr(base.obj, "slice"):
+            return base.obj.slice(self, lo, hi, step)
         if step is not None:
             def cb(v):
                 if v is None or (isinstance(v, Const) and v.v is None):
